@@ -150,6 +150,14 @@ var frameOps = []string{
 	"tojson", "tojson-fault", "tocsv-fault", "renew", "bad-filter",
 }
 
+// gbOpts: the grouping options in either order.
+func gbOpts(cols []string, null bool, order int) []groupby.ConfigFunc {
+	if order%2 == 1 {
+		return []groupby.ConfigFunc{groupby.Null(null), groupby.Columns(cols...)}
+	}
+	return []groupby.ConfigFunc{groupby.Columns(cols...), groupby.Null(null)}
+}
+
 func kindIndex(kind string) int {
 	for i, k := range frameOps {
 		if k == kind {
@@ -533,6 +541,14 @@ func resolveFrame(w *World, d OpDesc, recv, other *Member, client int) *Exec {
 			a = p(0) % (recv.Len + 1)
 			b = a + p(1)%(recv.Len-a+1)
 		}
+		if recv.Len > 255 {
+			// large frames: bounds anywhere, not only within the first 255 rows
+			a = p(0) * (recv.Len + 1) / 256
+			if p(3)%3 == 0 {
+				a = 0
+			}
+			b = a + p(1)*(recv.Len-a+1)/256
+		}
 		if p(2)%17 == 0 {
 			b = recv.Len + 1 // out of range: an error is a result too
 		}
@@ -771,7 +787,7 @@ func resolveFrame(w *World, d OpDesc, recv, other *Member, client int) *Exec {
 		ex.Mutual = true
 		ex.Run = func() *Outcome {
 			passed, check := guarded(cols)
-			res := f.Distinct(groupby.Columns(passed...), groupby.Null(null))
+			res := f.Distinct(gbOpts(passed, null, p(7))...)
 			out := frameOutcome(res, ex.Desc, client, true)
 			// which representative is kept is unspecified: compare the key classes only
 			o := obs.Of(res)
@@ -806,7 +822,7 @@ func resolveFrame(w *World, d OpDesc, recv, other *Member, client int) *Exec {
 		ex.Mutual = true
 		ex.Run = func() *Outcome {
 			passed, check := guarded(cols)
-			g := f.GroupBy(groupby.Columns(passed...), groupby.Null(null))
+			g := f.GroupBy(gbOpts(passed, null, p(7))...)
 			return &Outcome{Canon: canonGrouper(g), New: []*Member{{Kind: KGrouper, G: g, Origin: ex.Desc, Owner: client, Keys: cols, ArgCheck: check}}, ArgChanged: check()}
 		}
 	case "aggregate-direct":
@@ -816,7 +832,7 @@ func resolveFrame(w *World, d OpDesc, recv, other *Member, client int) *Exec {
 		ex.Mutual = true
 		ex.Run = func() *Outcome {
 			passed, check := guarded(cols)
-			g := f.GroupBy(groupby.Columns(passed...), groupby.Null(null))
+			g := f.GroupBy(gbOpts(passed, null, p(7))...)
 			res := g.Aggregate(aggsFor(shape.Names, shape.Types, cols, d)...)
 			out := frameOutcome(res, ex.Desc, client, true)
 			out.ArgChanged = check()
